@@ -281,7 +281,7 @@ func c01r2(c *core.Ctx) {
 			case *ast.ExprStmt:
 				if cl, ok := ast.Unparen(x.X).(*ast.CallExpr); ok {
 					if rv, ok := callTo(m, cl, tr.SetEntity); ok && rv != nil {
-						creations = append(creations, creation{cl, rv, m.ExprString(roleArg(tr.SetEntity, cl, "row")), m.ExprString(roleArg(tr.SetEntity, cl, "entity"))})
+						creations = append(creations, creation{cl, rv, m.ExprString(roleArg(m, tr.SetEntity, cl, "row")), m.ExprString(roleArg(m, tr.SetEntity, cl, "entity"))})
 					} else if rv, ok := callTo(m, cl, tr.Add); ok && rv != nil {
 						creations = append(creations, creation{cl, rv, "", m.ExprString(cl.Args[0])})
 					}
@@ -576,14 +576,14 @@ func moveSummaryOf(c *core.Ctx, g *core.Func) *moveSummary {
 		}
 		var dst, src, dstRow, srcRow ast.Expr
 		if rv, ok := callTo(m, cl, tr.Set); ok && rv != nil {
-			dst, dstRow, srcRow = rv, roleArg(tr.Set, cl, "dstRow"), roleArg(tr.Set, cl, "srcRow")
-			if cc, ok := ast.Unparen(roleArg(tr.Set, cl, "srcCol")).(*ast.CallExpr); ok {
+			dst, dstRow, srcRow = rv, roleArg(m, tr.Set, cl, "dstRow"), roleArg(m, tr.Set, cl, "srcRow")
+			if cc, ok := ast.Unparen(roleArg(m, tr.Set, cl, "srcCol")).(*ast.CallExpr); ok {
 				if sel, ok := ast.Unparen(cc.Fun).(*ast.SelectorExpr); ok {
 					src = sel.X
 				}
 			}
 		} else if rv, ok := callTo(m, cl, tr.CopyAll); ok && rv != nil {
-			dst, src, dstRow, srcRow = rv, roleArg(tr.CopyAll, cl, "src"), roleArg(tr.CopyAll, cl, "dstRow"), roleArg(tr.CopyAll, cl, "srcRow")
+			dst, src, dstRow, srcRow = rv, roleArg(m, tr.CopyAll, cl, "src"), roleArg(m, tr.CopyAll, cl, "dstRow"), roleArg(m, tr.CopyAll, cl, "srcRow")
 		}
 		if dst != nil {
 			a, b, x, y := par(dst), par(dstRow), par(src), par(srcRow)
@@ -716,17 +716,17 @@ func c01r3(c *core.Ctx) {
 			var dstRow, srcRow ast.Expr
 			var compArg, colComp string
 			if rv, ok := callTo(m, cl, tr.Set); ok && rv != nil {
-				dst, dstRow, srcRow = rv, roleArg(tr.Set, cl, "dstRow"), roleArg(tr.Set, cl, "srcRow")
-				compArg = m.ExprString(roleArg(tr.Set, cl, "comp"))
+				dst, dstRow, srcRow = rv, roleArg(m, tr.Set, cl, "dstRow"), roleArg(m, tr.Set, cl, "srcRow")
+				compArg = m.ExprString(roleArg(m, tr.Set, cl, "comp"))
 				// source column: S.Column(id)
-				if cc, ok := ast.Unparen(roleArg(tr.Set, cl, "srcCol")).(*ast.CallExpr); ok {
+				if cc, ok := ast.Unparen(roleArg(m, tr.Set, cl, "srcCol")).(*ast.CallExpr); ok {
 					if sel, ok := ast.Unparen(cc.Fun).(*ast.SelectorExpr); ok && len(cc.Args) == 1 {
 						src = sel.X
 						colComp = m.ExprString(cc.Args[0])
 					}
 				}
 			} else if rv, ok := callTo(m, cl, tr.CopyAll); ok && rv != nil {
-				dst, src, dstRow, srcRow = rv, roleArg(tr.CopyAll, cl, "src"), roleArg(tr.CopyAll, cl, "dstRow"), roleArg(tr.CopyAll, cl, "srcRow")
+				dst, src, dstRow, srcRow = rv, roleArg(m, tr.CopyAll, cl, "src"), roleArg(m, tr.CopyAll, cl, "dstRow"), roleArg(m, tr.CopyAll, cl, "srcRow")
 			} else if k, cal, _ := m.Callee(cl); k == core.CallStatic && moveSummaryOf(c, cal) != nil && moveSummaryOf(c, cal).copy != nil {
 				// a helper that copies between the rows and tables it receives as parameters: the call is the copy
 				cp := moveSummaryOf(c, cal).copy
@@ -815,7 +815,7 @@ func c01r4(c *core.Ctx) {
 			if dst == nil {
 				return true
 			}
-			src := roleArg(role, cl, "src")
+			src := roleArg(m, role, cl, "src")
 			D, S := m.ExprString(dst), m.ExprString(src)
 			subject := fmt.Sprintf("%s: %s.%s(%s)", f.Name, D, role.Obj.Name(), S)
 			var problems []string
